@@ -429,7 +429,7 @@ func (fc *funcContext) translateExpr(expr ast.Expr) *expression {
 							return fc.fixNumber(fc.formatExpr("%e >> 31", e.X), basic)
 						}
 						// The result is 0, but the operand is still evaluated (calls, nil dereferences).
-						return fc.formatParenExpr("%e, 0", e.X)
+						return fc.formatExpr("(%e, 0)", e.X)
 					}
 					return fc.fixNumber(fc.formatExpr("%e %s %s", e.X, op, strconv.FormatUint(i, 10)), basic)
 				}
